@@ -358,7 +358,7 @@ def find_fn(src, impl_header, fn_name, nth=0):
                 break
         e += 1
     blk = src[b:e + 1]
-    m = re.compile(r'\bfn\s+' + re.escape(fn_name) + r'\s*(<[^>]*>)?\s*\(').search(blk)
+    m = re.compile(r'\bfn\s+' + re.escape(fn_name) + r'\s*(<(?:[^<>]|<[^<>]*>)*>)?\s*\(').search(blk)
     if not m:
         raise Untranslatable(f"fn {fn_name} not found in {impl_header!r}")
     j = m.end() - 1
@@ -497,6 +497,8 @@ class Emit:
             return f"{s.e(base)}.{x[2] + 1}"
         if k == 'index':
             base = x[1]
+            if base[0] == 'tidx' and base[2] == 0:
+                base = base[1]          # `x.0[i]` on the newtype `Affine([f64; 6])`
             if x[2][0] == 'num' and re.fullmatch(r'\d+', x[2][1]):
                 return f"{s.e(base)}.c{x[2][1]}"
             raise Untranslatable('index with non-literal')
@@ -598,6 +600,19 @@ class Emit:
             return lid(e[1][0])
         raise Untranslatable("assignment to a non-local")
 
+    def field_assign(s, st):
+        """`x.f op= e` / `x.0[i] op= e` on a local struct  ==>  (x, field, new value)"""
+        lhs = st[2]
+        if lhs[0] == 'field' and lhs[1][0] == 'path' and len(lhs[1][1]) == 1:
+            var, fld = lid(lhs[1][1][0]), lid(lhs[2])
+        elif (lhs[0] == 'index' and lhs[1][0] == 'tidx' and lhs[1][2] == 0 and lhs[1][1][0] == 'path'
+              and len(lhs[1][1][1]) == 1 and lhs[2][0] == 'num'):
+            var, fld = lid(lhs[1][1][1][0]), 'c' + lhs[2][1]
+        else:
+            return None
+        rhs = s.e(st[3]) if st[1] == '=' else f"({var}.{fld} {st[1][0]} {s.e(st[3])})"
+        return var, fld, rhs
+
     def blk(s, b):
         _, stmts, tail = b
         return s.stmts(list(stmts), tail)
@@ -612,6 +627,10 @@ class Emit:
         if st[0] == 'let':
             return f"(let {s.pat(st[1])} := {s.e(st[2])}; {s.stmts(rest, tail)})"
         if st[0] == 'assign':
+            fa = s.field_assign(st)
+            if fa:
+                var, fld, rhs = fa
+                return f"(let {var} := {{ {var} with {fld} := {rhs} }}; {s.stmts(rest, tail)})"
             n = s.lhs_name(st[2])
             if st[1] == '=':
                 return f"(let {n} := {s.e(st[3])}; {s.stmts(rest, tail)})"
